@@ -69,7 +69,9 @@ func (c *Config) Cap() int { return c.SegmentSize - c.TagLen() }
 
 // MinSegmentSize is the smallest ciphertext segment size for which the first segment holds at
 // least one plaintext byte.
-func MinSegmentSize(keySize, tagLen, offset int) int { return 1 + keySize + NoncePrefixLen + offset + tagLen + 1 }
+func MinSegmentSize(keySize, tagLen, offset int) int {
+	return 1 + keySize + NoncePrefixLen + offset + tagLen + 1
+}
 
 // Check reports whether the configuration is inside the documented domain.
 func (c *Config) Check() error {
